@@ -78,6 +78,92 @@ def guard_correspondence(ctx, cases, res):
     ctx.dist("guard_cases_with_refused_entries", refused)
 
 
+def fs_bindings(tree):
+    """snapshot of a directory -> [(components, node)] for everything below it"""
+    out = []
+
+    def rec(node, comps):
+        for nm in sorted(node.get("c", {})):
+            ch = node["c"][nm]
+            q = comps + [nm]
+            out.append((q, ch))
+            if ch["k"] == "d":
+                rec(ch, q)
+    if tree:
+        rec(tree, [])
+    return out
+
+
+def dest_correspondence(ctx, cases, res):
+    """Dest.restore_into on (what the destination held, the listing restored, overwrite) vs what restore left there and reported."""
+    from .. import common
+    from ..common import gallina_str, gallina_list, gallina_opt
+
+    def gnode(n):
+        if n["k"] == "d":
+            return "NDir"
+        if n["k"] == "l":
+            return "(NLink " + gallina_str(n["target"]) + ")"
+        return "(NFile " + gallina_str(bytes.fromhex(n.get("data", ""))) + ")"
+
+    def gfs(tree):
+        return gallina_list(["(" + gallina_list([gallina_str(c) for c in q]) + "," + gnode(n) + ")" for q, n in fs_bindings(tree)])
+    rows, meta = [], []
+    for c in cases:
+        r = res.get(c["id"])
+        if c.get("stitched") or r is None or "rtree" not in c:
+            continue
+        ls, dbefore, rs, dafter = r[-6], r[-4], r[-3], r[-1]
+        if ls.get("result") != "ok" or rs.get("panic") or rs.get("timeout"):
+            continue
+        refused = rs.get("result") != "ok"
+        if refused and "DestinationNotEmpty" not in json.dumps(rs.get("err")):
+            continue
+        content = scen.tree_file_bytes(c["rtree"])
+        ents = []
+        for e in ls["value"]:
+            k = KCODE.get(e["kind"], 3)
+            ents.append("(mk " + gallina_str(e["apath"]) + " " + str(k) + " " + gallina_str(content.get(e["apath"], b"") if k == 0 else b"") + " "
+                        + gallina_opt(e.get("target"), gallina_str) + ")")
+        overwrite = bool(c["steps"][-3].get("overwrite"))
+        nerr = len(rs.get("monitor_errors") or [])
+        rows.append("(" + ("true" if overwrite else "false") + ", " + gfs(dbefore.get("tree")) + ", " + gallina_list(ents) + ", " + gfs(dafter.get("tree"))
+                    + ", " + str(nerr) + ", " + ("true" if refused else "false") + ")")
+        meta.append((c, overwrite, nerr, refused))
+    if not rows:
+        return
+    body = ("From CV Require Import Base.Str Apath Entry Valid Dest DestP.\nLocal Open Scope N_scope.\n"
+            "Definition mk (p : str) (k : N) (c : bytes) (t : option str) : entry := {| e_apath := p; e_kind := (if N.eqb k 0 then KFile else if N.eqb k 1 "
+            "then KDir else if N.eqb k 2 then KSymlink else KUnknown); e_mtime := 0%Z; e_nanos := 0; e_mode := 420; e_user := None; e_group := None; "
+            "e_addrs := [{| a_hash := c; a_start := 0; a_len := 0 |}]; e_target := t |}.\n"
+            "Definition cof (e : entry) : bytes := concat (map a_hash (e_addrs e)).\n"
+            "Definition node_eqb (a b : node) : bool := match a, b with NDir, NDir => true | NFile x, NFile y => str_eqb x y "
+            "| NLink x, NLink y => str_eqb x y | _, _ => false end.\n"
+            "Definition fs_sub (f g : fs) : bool := forallb (fun b => match lookup g (fst b) with Some n => node_eqb n (snd b) | None => false end) f.\n"
+            "Definition one (c : bool * fs * list entry * fs * N * bool) : N := let '(ow, f0, es, f1, nerr, refused) := c in "
+            "if negb (tree_likeb f0) then 6 else "
+            "match restore_into cof ow f0 es with None => if refused then 0 else 4 | Some s => if refused then 5 else "
+            "if negb (N.eqb (d_esc s) 0) then 3 else if negb (fs_sub (d_fs s) f1 && fs_sub f1 (d_fs s)) then 1 else if N.eqb (d_errs s) nerr then 0 else 2 end.\n"
+            "Definition cs : list (bool * fs * list entry * fs * N * bool) := " + gallina_list(rows) + ".\n"
+            "Eval vm_compute in map one cs.\n")
+    ok, txt = common.coq_eval("C16_dest", body, 1800)
+    blocks = common.parse_eval_blocks(txt)
+    if not ok or not blocks:
+        ctx.corr_fail("L2", "Dest.restore_into evaluation failed: " + txt[-500:], {})
+        return
+    nums = common.parse_nums(blocks[0].split("%")[0].split(":")[0])
+    agreed = 0
+    for (c, overwrite, nerr, refused), code in zip(meta, nums):
+        if code == 0:
+            agreed += 1
+            ctx.dist("dest_model_" + ("overwrite" if overwrite else ("refused" if refused else "fresh")) + ("_with_errors" if nerr else ""))
+        else:
+            ctx.corr_fail("L2", f"Dest.restore_into and restore differ (code {code}: 1 = what the destination holds afterwards, 2 = number of errors "
+                                f"reported (real {nerr}), 3 = the model resolved a path through a symlink, 4/5 = refusal, 6 = the destination before the restore does not meet the theorems' premise tree_like) overwrite={overwrite}",
+                          {"steps": c["steps"]})
+    ctx.layer("L2-destination", agreed, len(meta))
+
+
 def run(ctx):
     quick = ctx.tier == "quick"
     ctx.cov["rule"] = ("trees with symlinks aimed at sentinel files and directories beside the destination (relative upward, absolute into the "
@@ -103,25 +189,58 @@ def run(ctx):
             for nm in ctx.rng.sample(sorted(tree["c"]), min(2, len(tree["c"]))) + ["zz-link"]:
                 links[nm] = {"k": "l", "target": ctx.rng.choice(["../outside/sentinel", "../outside/sdir", "../outside"]), "mtime": 10**18 + 1}
             steps.append({"op": "mktree", "path": "dest", "tree": {"k": "d", "mode": 0o755, "mtime": 5, "c": links}})
+        if t % 4 == 3:
+            # overwrite into a destination that already holds other things at the tree's own paths: links aimed outside
+            # where the tree has directories or files, files where it has directories, directories where it has files
+            destkind = "mixed-overwrite"
+
+            def other(node, depth):
+                out = {}
+                for nm in sorted(node["c"]):
+                    ch = node["c"][nm]
+                    x = ctx.rng.random()
+                    if x < 0.3:
+                        out[nm] = {"k": "l", "target": ctx.rng.choice(["@WS@/outside/sdir", "@WS@/outside/sentinel", "@WS@/outside", "nowhere"]),
+                                   "mtime": 10**18 + 2}
+                    elif x < 0.45:
+                        out[nm] = {"k": "f", "data": "6f6c64", "mode": 0o600, "mtime": 88}
+                    elif x < 0.6:
+                        out[nm] = {"k": "d", "mode": 0o755, "mtime": 99, "c": {"kept": {"k": "f", "data": "6b", "mode": 0o600, "mtime": 77}}}
+                    elif ch["k"] == "d" and x < 0.9:
+                        out[nm] = {"k": "d", "mode": 0o755, "mtime": 99, "c": other(ch, depth + 1)}
+                return out
+            steps.append({"op": "mktree", "path": "dest", "tree": {"k": "d", "mode": 0o755, "mtime": 5, "c": other(tree, 0)}})
         rs = {"op": "restore", "band": 0, "dest": "dest"}
+        if destkind == "mixed-overwrite":
+            rs["overwrite"] = True
         if ctx.rng.random() < 0.3:
             dirs = [p for p, n in gen.tree_paths(tree) if n["k"] == "d" and p != "/"]
             if dirs:
                 rs["subtree"] = ctx.rng.choice(dirs)
-        steps += [{"op": "snap", "path": "outside"}, {"op": "snap", "path": "dest"}, rs, {"op": "snap", "path": "outside"}, {"op": "snap", "path": "dest"}]
-        cases.append({"id": f"c{t}", "tree": tree, "opts": opts, "destkind": destkind, "steps": steps})
+        ls = {"op": "list", "band": 0}
+        if "subtree" in rs:
+            ls["subtree"] = rs["subtree"]
+        steps += [ls, {"op": "snap", "path": "outside"}, {"op": "snap", "path": "dest"}, rs, {"op": "snap", "path": "outside"}, {"op": "snap", "path": "dest"}]
+        cases.append({"id": f"c{t}", "tree": tree, "rtree": tree, "opts": opts, "destkind": destkind, "steps": steps})
     # the stitched-symlink history: a directory replaced by a symlink, the next backup killed at EVERY point
     for t in range(5 if quick else 60):
         t0 = scen.small_tree(ctx.rng) if t % 2 else {"k": "d", "mode": 0o755, "mtime": 10**18, "c": {}}
         t0["c"]["d"] = {"k": "d", "mode": 0o755, "mtime": 10**18, "c": {
             "f": {"k": "f", "data": gen.rand_bytes(ctx.rng, 6).hex(), "mode": 0o644, "mtime": 10**18 + 3},
             "sub": {"k": "d", "mode": 0o700, "mtime": 10**18, "c": {"g": {"k": "f", "data": "67", "mode": 0o600, "mtime": 10**18 + 4}}}}}
+        # ... and a regular file replaced by a symlink to a file outside (the older version's entry for the same path lying
+        # in the middle of an index hunk, at its start or at its end, depending on the hunk size)
+        t0["c"]["m"] = {"k": "f", "data": gen.rand_bytes(ctx.rng, 5).hex(), "mode": 0o644, "mtime": 10**18 + 5}
+        t0["c"].setdefault("a", {"k": "f", "data": "61", "mode": 0o644, "mtime": 10**18 + 6})
+        t0["c"].setdefault("z", {"k": "f", "data": "7a", "mode": 0o644, "mtime": 10**18 + 7})
         t1 = json.loads(json.dumps(t0))
         t1["c"]["d"] = {"k": "l", "target": ctx.rng.choice(["../outside/sdir", "../outside", "@WS@/outside/sdir"]), "mtime": 10**18 + 50}
+        t1["c"]["m"] = {"k": "l", "target": ctx.rng.choice(["../outside/sentinel", "@WS@/outside/sentinel", "../outside/newfile"]), "mtime": 10**18 + 51}
         o2 = {"meph": ctx.rng.choice([1, 2, 3]), "mbs": 8, "sfc": 4}
+        o1 = {"meph": [2, 3, 4, 5, 7][t % 5], "mbs": 8, "sfc": 4}
         for k in range(10, 70 if quick else 120):
             steps = [{"op": "init"}, {"op": "mktree", "path": "outside", "tree": OUTSIDE}, {"op": "mktree", "path": "src", "tree": t0},
-                     {"op": "backup", "opts": {"meph": 2, "mbs": 8, "sfc": 4}},
+                     {"op": "backup", "opts": o1},
                      {"op": "mktree", "path": "src", "tree": t1},
                      {"op": "backup", "opts": o2, "plan": {"crash": k}},
                      {"op": "list", "band": 1},
@@ -162,8 +281,9 @@ def run(ctx):
                  {"op": "backup", "opts": scen.small_opts(ctx.rng)}, {"op": "mktree", "path": "src", "tree": tb},
                  {"op": "backup", "opts": scen.small_opts(ctx.rng)},
                  {"op": "restore", "band": first, "dest": "dest"},
+                 dict({"op": "list", "band": second}, **({"subtree": rs["subtree"]} if "subtree" in rs else {})),
                  {"op": "snap", "path": "outside"}, {"op": "snap", "path": "dest"}, rs, {"op": "snap", "path": "outside"}, {"op": "snap", "path": "dest"}]
-        cases.append({"id": f"o{t}", "tree": ta, "opts": {}, "destkind": "absent", "over": True, "steps": steps})
+        cases.append({"id": f"o{t}", "tree": ta, "rtree": (tb if second == 1 else ta), "opts": {}, "destkind": "absent", "over": True, "steps": steps})
     res = ctx.cvh_run(cases)
     for c in cases:
         r = res.get(c["id"])
@@ -181,14 +301,16 @@ def run(ctx):
             sig = "confine/stitched-symlink-ancestor" if c.get("stitched") else ("confine/overwrite-through-restored-symlink" if c.get("over") else "confine/outside-modified")
             ctx.oracle_fail(sig, f"restore changed something outside its destination: {d[0]!r} ({d[1]}: {d[2]} -> {d[3]})", small)
             continue
-        if c["destkind"] in ("populated", "symlinks-only"):
+        if c["destkind"] == "mixed-overwrite":
+            pass
+        elif c["destkind"] in ("populated", "symlinks-only"):
             if rs.get("result") == "ok":
                 ctx.oracle_fail("confine/clobbered-nonempty-destination", "restore into a non-empty destination without overwrite was not refused", small)
                 continue
             if scen.first_difference(scen.strip(dbefore.get("tree")), scen.strip(dafter.get("tree"))):
                 ctx.oracle_fail("confine/refused-but-touched", "restore refused a non-empty destination but changed it", small)
                 continue
-        elif not c.get("stitched") and not c.get("over") and rs.get("result") != "ok":
+        if c["destkind"] not in ("populated", "symlinks-only") and not c.get("stitched") and not c.get("over") and rs.get("result") != "ok":
             ctx.oracle_fail("confine/restore-failed", f"restore failed: {json.dumps(rs.get('err'))[:200]}", small)
             continue
         links = [n["target"] for _, n in gen.tree_paths(c["tree"]) if n["k"] == "l"]
@@ -196,6 +318,7 @@ def run(ctx):
             ctx.nontrivial(json.dumps([c["destkind"], sorted(links), c.get("stitched", False)]))
         ctx.dist("dest_" + c["destkind"] + ("_stitched" if c.get("stitched") else "") + ("_overwrite_after_restore" if c.get("over") else ""))
     guard_correspondence(ctx, cases, res)
+    dest_correspondence(ctx, cases, res)
     if cases:
         ctx.sample({"link_targets": sorted({n["target"] for _, n in gen.tree_paths(cases[0]["tree"]) if n["k"] == "l"})})
     ctx.assumptions += ["kernel path resolution and metadata semantics are observed on this machine, not modelled; runs as root (so absolute targets are confined to the sandbox by construction)"]
